@@ -142,7 +142,7 @@ func TestPropCircuitIDKeys(t *testing.T) {
 	rapid.Check(t, func(rt *rapid.T) {
 		// shapes whose (listed) key sharing ends a case at the second lease are drawn in a third of the cases only
 		shapeSet := []string{"random", "random", "text", "key-boundary"}
-		special := rapid.IntRange(0, 2).Draw(rt, "specialShapes") == 0
+		special := rapid.Bool().Draw(rt, "specialShapes")
 		for _, sh := range []struct{ shape, sig string }{{"long-common-prefix", sigCidTrunc}, {"prefix-of-long", sigCidTrunc}, {"trailing-zeros", sigCidPad}, {"fnv-collision", sigCidFNV}} {
 			if !vstat.IsListed(sh.sig) || special {
 				shapeSet = append(shapeSet, sh.shape)
@@ -215,7 +215,7 @@ func TestPropCircuitIDKeys(t *testing.T) {
 			return true
 		}
 		idx := rapid.IntRange(0, len(subs)-1)
-		rt.Repeat(map[string]func(*rapid.T){
+		rt.Repeat(guard(&h.dead, map[string]func(*rapid.T){
 			"lease": func(rt *rapid.T) {
 				i := idx.Draw(rt, "i")
 				e1 := tb.loader.AddCircuitIDMapping(subs[i].cid, subs[i].mac)
@@ -256,12 +256,7 @@ func TestPropCircuitIDKeys(t *testing.T) {
 				delete(inFixed, i)
 				check(rt, "expire")
 			},
-			"": func(rt *rapid.T) {
-				if h.dead {
-					rt.Skip("known finding fired")
-				}
-			},
-		})
+		}))
 		cls := []string{"circuitid"}
 		for s := range shapes {
 			cls = append(cls, "circuitid:"+s)
@@ -271,7 +266,7 @@ func TestPropCircuitIDKeys(t *testing.T) {
 		}
 		nt := contended || reacquired
 		if nt {
-			cls = append(cls, "nt:reacquired-or-contended")
+			cls = append(cls, "nt:reacquired-or-contended", "nt:"+cls[0])
 		}
 		ops := h.ops
 		vstat.Case(nt, h.fp(), func() any { return map[string]any{"component": "circuitid", "ops": ops} }, cls...)
